@@ -255,7 +255,7 @@ class Part(object):
                 )
                 for c in self.iter_all(Clef)
             ]
-        )
+        ).reshape(-1, 5)  # keep two dimensions when there is no clef at all
 
         interpolators = []
         for s in range(1, self.number_of_staves + 1):
